@@ -725,11 +725,12 @@ func CheckC17(p *Pkg, e *Env, r *res.Result) {
 				r.Label("state:" + state)
 				if fail != "" {
 					kind := "cors:" + state
-					if state == "no-cors" && p.Cfg.Cors && !handlerSet && other.Dispatch != nil && other.Dispatch.Template != tpl && len(in.Calls) == 1 && in.Calls[0].Op.Template == other.Dispatch.Template {
+					if state == "no-cors" && p.Cfg.Cors && !handlerSet && other.Dispatch != nil && len(in.Calls) == 1 && in.Calls[0].Op.Template != tpl && in.Calls[0].Op.Method == "OPTIONS" {
 						// the preflight of a path without OPTIONS was served by a less literal
 						// template's own OPTIONS operation; where the two templates part decides
 						// which code path did it
-						ts, os := strings.Split(tpl, "/"), strings.Split(other.Dispatch.Template, "/")
+						// (the operation that actually ran: there may be several candidates)
+						ts, os := strings.Split(tpl, "/"), strings.Split(in.Calls[0].Op.Template, "/")
 						div := len(ts) - 1
 						for i := range ts {
 							if i < len(os) && ts[i] != os[i] {
